@@ -175,7 +175,7 @@ def add_branch_component(comp, mg, net, table_name, include_comp, respect_status
         indices[:, F_JUNCTION] = tab[from_col].values
         indices[:, T_JUNCTION] = tab[to_col].values
 
-        if valve_et_filter is not None:
+        if valve_et_filter is not None and "valve" in net:
             mask = (net.valve.et.values == valve_et_filter) & ~net.valve.opened.values.astype(bool)
             if mask.any():
                 open_pipes = net.valve.element.values[mask]
